@@ -121,6 +121,9 @@ def h_hole() -> Union[bool, str]:
     if nf != want:
         return "query %r parsed as %r, RFC reading is %r" % (q, nf, want)
     if mode == "roundtrip":
+        # numeric literals beyond the range of doubles (1e400 -> inf) are outside C12's domain ("within the exactly
+        # representable range"): their str() is 'inf', which is not a literal of the grammar
+        assume(not _has_infinite_literal(nf))
         s1 = str(c)
         v1, ast1, _rp1 = ref_run(s1)
         if v1 != "valid":
@@ -137,6 +140,16 @@ def h_hole() -> Union[bool, str]:
         if s2 != s1:
             return "serialisation is not a fixpoint: %r -> %r -> %r" % (q, s1, s2)
     return True
+
+
+def _has_infinite_literal(nf) -> bool:
+    if isinstance(nf, tuple):
+        if len(nf) == 2 and nf[0] == "numval" and isinstance(nf[1], float) and (nf[1] == float("inf") or nf[1] == float("-inf")):
+            return True
+        for x in nf:
+            if _has_infinite_literal(x):
+                return True
+    return False
 
 
 def hole_instances(seeds, replace=(0, 1)):
